@@ -255,6 +255,8 @@ structure St where
 inductive Wire where
   | val (v : Val)
   | garbage (e : Err)
+  /-- an empty payload: `serve()` returns without looking at it (`if not data: return False`) -/
+  | empty
   deriving Repr, Inhabited
 
 structure Ctx where
@@ -296,6 +298,12 @@ def getCtx : M Ctx := fun c st fut => ⟨.ok c, st, fut⟩
 def getSt : M St := fun _ st fut => ⟨.ok st, st, fut⟩
 def modify (f : St → St) : M Unit := fun _ st fut => ⟨.ok (), f st, fut⟩
 def push (e : Ev) : M Unit := modify (fun st => { st with log := st.log ++ [e] })
+
+/-- a generator expression (`tuple(f(x) for x in …)`) turns a `StopIteration` raised in its body into `RuntimeError` (PEP 479) -/
+def inGenerator {α} (m : M α) : M α := fun c st fut =>
+  match m c st fut with
+  | ⟨.error x, st', fut'⟩ => ⟨.error (if x.cls == "StopIteration" then { cls := "RuntimeError" } else x), st', fut'⟩
+  | o => o
 
 /-- run `m`; never raises -/
 def attempt {α} (m : M α) : M (Except Exc α) := fun c st fut =>
@@ -490,7 +498,7 @@ def box : Nat → Nat → PV → M Val
   | _, 0, _ => throwE .recursionError
   | _, _ + 1, .imm v => pure (.tuple [.int Gen.Handlers.labelValue, v])
   | n, f + 1, .tup xs => do
-    let bs ← boxL n f xs
+    let bs ← inGenerator (boxL n f xs)
     pure (.tuple [.int Gen.Handlers.labelTuple, .tuple bs])
   | _, _ + 1, .proxy nm c i => pure (.tuple [.int Gen.Handlers.labelLocalRef, .tuple [.str nm, c, i]])
   | n, f + 1, .obj o => do
@@ -570,7 +578,7 @@ def unbox : Nat → Val → M PV
     if pyEqNat label Gen.Handlers.labelValue then pure (.imm value)
     else if pyEqNat label Gen.Handlers.labelTuple then do
       let items ← liftE (iterVal value)
-      let xs ← unboxL f items
+      let xs ← inGenerator (unboxL f items)
       pure (mkTuple xs)
     else if pyEqNat label Gen.Handlers.labelLocalRef then do
       let st ← getSt
@@ -1007,6 +1015,7 @@ def loadExc (val : Val) : M Ans := do
 /-- `_dispatch(data)` after `brine.load`, or the decoder's exception -/
 def dispatch (w : Wire) : M Unit :=
   match w with
+  | .empty => pure ()
   | .garbage e => throwE e
   | .val v => do
     let (msg, seq, args) ← liftE (unpack3 v)
@@ -1026,8 +1035,10 @@ def takeResult (st : St) (seq : Nat) : Option (Ans × St) :=
   | some p => some (p.2, { st with results := st.results.filter (fun q => q.1 != seq) })
   | none => none
 
+/-- the deadline of the wait for `seq` passes: every request issued earlier (same timeout, earlier deadline) whose
+answer nobody has consumed is past its deadline as well -/
 def expire (st : St) (seq : Nat) : St :=
-  { st with pending := st.pending.map (fun p => if p.1 == seq then (p.1, true) else p),
+  { st with pending := st.pending.map (fun p => (p.1, true)),
             log := st.log ++ [.expired seq] }
 
 /-- `AsyncResult.wait`: `while not ready and not expired: conn.serve(ttl)`; the rest of the burst is what arrives
@@ -1048,9 +1059,13 @@ def awaitF (b : Ctx) : Nat → St → Nat → List Wire → Ans × St × List Wi
 
 def Ctx.tie (b : Ctx) (fuel : Nat) : Ctx := { b with await := awaitF b fuel }
 
-/-- `close()` as `serve_all`'s `finally` runs it: `_cleanup` unless already closed (its exceptions end the thread) -/
+/-- `close()` as `serve_all`'s `finally` runs it, unless the connection is already closed: the flag, an asynchronous
+`HANDLE_CLOSE` request to the peer (the channel is still open), then `_cleanup` (whose exceptions end the thread) -/
 def closeConn (c : Ctx) (st : St) : St :=
-  if st.closed then st else (cleanup c st []).st
+  if st.closed then st
+  else (cleanup c { st with nextSeq := st.nextSeq + 1, pending := st.pending ++ [(st.nextSeq, false)],
+                            log := st.log ++ [.outReq st.nextSeq Gen.Handlers.handleClose
+                                                (.tuple [.int Gen.Handlers.labelValue, .tuple []])] } []).st
 
 /-- `serve_all` over the messages of one burst: an exception out of `serve()` closes the connection -/
 def serveBurst (b : Ctx) : Nat → St → List Wire → St
